@@ -150,7 +150,21 @@ def observe(c):
     except Unmodelled as u:
         c.unmodelled = str(u)
         c.term = None
+        # the inputs are modelled but the RESULT is not a schema of the model's universe: the
+        # implementation returned something no d42 declaration can build
+        try:
+            absn.cschema(c.schema, absn.KeyTable())
+            absn.cvalue(c.value, absn.KeyTable())
+            if c.outcome == "ok":
+                c.unmodelled = "RESULT: " + c.unmodelled
+        except Unmodelled:
+            pass
     return c
+
+
+def bad_results(cases):
+    """cases whose inputs are modelled but whose resulting schema is outside the model"""
+    return [c for c in cases if c.unmodelled and c.unmodelled.startswith("RESULT: ")]
 
 
 def accepts(s, v):
@@ -231,6 +245,16 @@ def precisions(s):
         if p is not Nil and isinstance(p, int):
             out.add(p)
     return sorted(out)
+
+
+def float_anchors(s):
+    """float values already declared somewhere in the schema"""
+    out = []
+    for x in _walk(s):
+        v = x.props.get("value")
+        if isinstance(v, float) and v == v:
+            out.append(v)
+    return out
 
 
 def has_placeholder(v):
